@@ -376,13 +376,35 @@ type c14kv struct{ k, tag int }
 func VHGroupCountLarge() {
 	n := 1 + vChoose("n", vParam("NL"))
 	d := 1 + vChoose("distinct", n)
-	pat := vChoose("pattern", 2)
+	c14group(n, d, vChoose("pattern", 2))
+	if d >= 9 && n > d {
+		vCover("groupby long: > 8 distinct keys with repeats")
+	}
+}
+
+// VHGroupCountHuge: the same with 33..1000 elements in 1..17 groups, so that single groups grow
+// far beyond any per-group reservation and the group table beyond its first sizes; a third
+// pattern interleaves one dominant key with singletons.
+func VHGroupCountHuge() {
+	n := []int{33, 64, 65, 200, vParam("NHUGE")}[vChoose("n", 5)]
+	d := []int{1, 2, 3, 5, 17}[vChoose("distinct", 5)]
+	c14group(n, d, vChoose("pattern", 3))
+	vCover("groupby huge done")
+}
+
+func c14group(n, d, pat int) {
 	s := make([]c14kv, n)
 	block := (n + d - 1) / d
 	for i := range s {
 		k := i % d // round-robin: every key reappears after all keys were seen
-		if pat == 1 {
+		switch pat {
+		case 1:
 			k = i / block // blocks
+		case 2:
+			k = 0 // one dominant key, the others appear once each early on
+			if i%2 == 1 && i/2+1 < d {
+				k = i/2 + 1
+			}
 		}
 		s[i] = c14kv{100 + k, vInt("tag")}
 	}
@@ -427,9 +449,6 @@ func VHGroupCountLarge() {
 	vAssert(total == n, "GroupBy (long input): group sizes sum to n")
 	for i := range s {
 		vAssert(s[i] == snap[i], "GroupBy/CountBy (long input) do not modify the input")
-	}
-	if d >= 9 && n > d {
-		vCover("groupby long: > 8 distinct keys with repeats")
 	}
 }
 
